@@ -262,6 +262,11 @@ func runC02(c *Ctx, si interface{}) {
 			c.Violate("support", "alphabet-mismatch", "%s: the alphabet the generator draws from %q lacks characters of the allowed string set (model alphabet %q)", s.Cfg, p.chars, p.m.A)
 			return
 		}
+		// the same stream delivered in 1-3 byte pieces makes the same choices
+		if ch := genOp(NewTape(TapeSpec{Mode: "choice", Seed: mix(s.Seed, "pilot"), Default: "random", Chunk: "rand3"}), rec); ch.Kind != "ok" || ch.Pw.S != p.pilot.Pw.S {
+			c.Violate("chunking-changes-result", "", "%s: the pilot stream gives %q delivered whole and %s delivered in 1-3 byte pieces", s.Cfg, p.pilot.Pw.S, ch.brief())
+			return
+		}
 		cont := append(append(append([]uint32{}, p.good...), p.good...), p.good...)
 		r := Sub(s.Seed, "levels")
 		ll := sweepCharLevel(c, rec, L, nil, cont, s.Budget*4, r, p.S)
